@@ -4,6 +4,8 @@ from __future__ import annotations
 import numpy as np
 from hypothesis import strategies as st
 
+from vp.gen.morph import fl
+
 from vp import core
 from vp.gen import morph as gm
 from vp.ref import mech as R2
@@ -57,13 +59,13 @@ def _spec(draw, tier):
         chans.append({"mech": mech, "name": name, "rows": rows})
     if not chans:
         chans = [{"mech": "HH", "name": None, "rows": list(range(N))}]
-    vt = [draw(st.one_of(st.sampled_from(NICE_VT), st.floats(-75.0, -45.0))) for _ in range(N)]
+    vt = [draw(st.one_of(st.sampled_from(NICE_VT), fl(-75.0, -45.0))) for _ in range(N)]
     sing = [-40.0, -55.0, -27.0]
     v = []
     for i in range(N):
         kind = draw(st.sampled_from(["float", "float", "sing", "sing_vt"]))
         if kind == "float":
-            v.append(draw(st.floats(-120.0, 60.0)))
+            v.append(draw(fl(-120.0, 60.0)))
         elif kind == "sing":
             v.append(_ulps(draw(st.sampled_from(sing)), draw(st.integers(-2, 2))))
         else:
@@ -72,9 +74,9 @@ def _spec(draw, tier):
         v = [v[0]] * N
     spec = {
         "morph": morph, "channels": chans, "v": v, "vt": vt,
-        "taumax": [draw(st.floats(200.0, 8000.0)) for _ in range(N)],
-        "vx": [draw(st.floats(-10.0, 10.0)) for _ in range(N)],
-        "gate0": [draw(st.floats(0.0, 1.0)) for _ in range(N)],
+        "taumax": [draw(fl(200.0, 8000.0)) for _ in range(N)],
+        "vx": [draw(fl(-10.0, 10.0)) for _ in range(N)],
+        "gate0": [draw(fl(0.0, 1.0)) for _ in range(N)],
     }
     return spec
 
